@@ -1073,6 +1073,10 @@ def replay(prop, path):
     os.makedirs(WORK, exist_ok=True)
     problems = build_all(ev, tools)
     text = open(path).read()
+    if case_blocks(text) and not re.search(r"^nq \d+", text, re.M):
+        # a case file of another layer (C16 is decided by two layers; every queue case starts with `nq <n>`)
+        vlib.log("[C17] replay: %s is not a queue-layer case file (left to the layer that wrote it)" % path)
+        return 0
     if not case_blocks(text):
         # a "tie broken" replay: the obligations themselves are the replay
         for p in problems:
